@@ -62,6 +62,17 @@ struct Sim {
     std::vector<std::vector<uint16_t>> cbstore;         // callback-backed areas
     uint64_t cb_reads = 0, cb_writes = 0, cb_writes_op = 0;
     bool cb_oob = false;
+    bool lift = false; uint32_t shift = 0;   // the library sees every address of the description moved up by 'shift' (see build)
+    uint32_t up(uint32_t a) const { return a + shift; }
+    RegisterAccess down(RegisterAccess a) const { if (a.code != REG_ACCESS_SUCCESS) a.address -= shift; return a; }
+    // with a lifted table a request may not run over the end of the address space: returns false if it would (the op is then not executed)
+    bool fits_address_space(uint32_t addr, uint64_t n) const { return (uint64_t)addr + shift + n <= 0x100000000ull; }
+    // the same as a clamp: a request that would run over the end is cut so that it ends exactly at the last address; false = starts beyond it
+    template <class N> bool clamp_n(uint32_t addr, N &n) const {
+        uint64_t a = (uint64_t)addr + shift; if (a > 0xffffffffull) return false;
+        uint64_t room = 0x100000000ull - a; if ((uint64_t)n > room) { n = (N)room; COUNT("probe.request_ends_at_last_address"); }
+        return true;
+    }
     int64_t cb_fail_in = -1;   // injected fault: the k-th callback access from now fails with an I/O error (-1 = none)
     bool cb_fault() { if (cb_fail_in < 0) return false; if (cb_fail_in-- == 0) { c.faults_fired++; COUNT("fault.callback_area_io_error"); return true; } return false; }
     // model
@@ -104,13 +115,22 @@ struct Sim {
         const uint16_t old_flags = tbl.flags;
         free(areas); free(entries);
         size_t na = spec.areas.size(), nr = spec.regs.size();
+        // "lifted" tables: the model keeps its small coordinates, the library gets the same description moved up so that its highest
+        // area or register ends exactly at the top of the 32-bit address space (address 0xffffffff is its last word)
+        shift = 0;
+        if (lift) {
+            uint64_t top = 0;
+            for (auto &a : spec.areas) top = std::max(top, (uint64_t)a.base + a.size);
+            for (auto &r : spec.regs) top = std::max(top, (uint64_t)r.addr + wsize(r.type));
+            if (top > 0) shift = (uint32_t)(0x100000000ull - top);
+        }
         areas = (RegisterArea *)calloc(na + 1, sizeof(RegisterArea));
         entries = (RegisterEntry *)calloc(nr + 1, sizeof(RegisterEntry));
         if (fresh_storage) { mem.clear(); mem.resize(na); cbstore.assign(na, {}); }
         for (size_t i = 0; i < na; ++i) {
             const AreaSpec &a = spec.areas[i];
             RegisterArea &A = areas[i];
-            A.base = a.base; A.size = a.size;
+            A.base = a.base + shift; A.size = a.size;
             A.flags = (uint16_t)(((a.flags & AF_R) ? REG_AF_READABLE : 0) | ((a.flags & AF_W) ? REG_AF_WRITEABLE : 0) | ((a.flags & AF_SKIP) ? REG_AF_SKIP_DEFAULTS : 0));
             if (a.mem) {
                 if (fresh_storage) { mem[i].reset(new GuardedBlock(a.size * 2)); }
@@ -125,7 +145,7 @@ struct Sim {
         for (size_t i = 0; i < nr; ++i) {
             const RegSpec &r = spec.regs[i];
             RegisterEntry &E = entries[i];
-            E.type = (RegisterType)r.type; E.address = r.addr; E.default_value = mkvalu(r.type, r.def);
+            E.type = (RegisterType)r.type; E.address = r.addr + shift; E.default_value = mkvalu(r.type, r.def);
             E.user = (void *)&spec.regs[i];
             switch (r.ck) {
             case CK_NONE: E.check.type = REGV_TYPE_TRIVIAL; break;
@@ -184,15 +204,15 @@ struct RegHarness : Harness {
     }
     std::vector<std::string> probes(const std::string &p) const override {
         if (p == "C01") return {"handle_eq_entries", "handle_beyond", "float_nan", "float_inf", "float_subnormal", "float_negative_zero", "type_mismatch_refused",
-                                "constraint_refused", "always_fail_refused", "set_accepted", "unsafe_bypasses_constraint", "callback_area_set", "get_undecodable_storage", "big_endian_table", "sanitise_left_through_error_path", "first_init_failed_then_retried", "value_objects_with_stale_octets"};
+                                "constraint_refused", "always_fail_refused", "set_accepted", "unsafe_bypasses_constraint", "callback_area_set", "get_undecodable_storage", "big_endian_table", "sanitise_left_through_error_path", "first_init_failed_then_retried", "value_objects_with_stale_octets", "table_ends_at_top_of_address_space", "area_wider_than_64k_words"};
         if (p == "C02") return {"write_inside_64bit_register", "partial_overlap_violates_constraint", "block_spans_two_areas", "block_into_readonly", "block_into_hole",
-                                "block_write_accepted", "block_decode_failure", "zero_length_write", "readonly_not_at_request_start", "value_objects_with_stale_octets"};
+                                "block_write_accepted", "block_decode_failure", "zero_length_write", "readonly_not_at_request_start", "reinit_after_registers_removed", "value_objects_with_stale_octets", "table_ends_at_top_of_address_space", "area_wider_than_64k_words", "request_ends_at_last_address"};
         if (p == "C03") return {"read_write_only_area_mid_area", "read_spans_two_areas", "read_into_hole", "zero_length_read", "iteration_starts_in_gap", "iteration_starts_mid_register",
-                                "iteration_stopped_by_callback", "iteration_negative_callback", "iteration_visits_several", "reinit_after_registers_removed", "value_objects_with_stale_octets"};
+                                "iteration_stopped_by_callback", "iteration_negative_callback", "iteration_visits_several", "reinit_after_registers_removed", "value_objects_with_stale_octets", "table_ends_at_top_of_address_space", "area_wider_than_64k_words", "request_ends_at_last_address"};
         if (p == "C04") return {"defect_no_areas", "defect_areas_swapped", "defect_area_overlap", "defect_regs_swapped", "defect_reg_overlap", "defect_reg_straddles_area_end",
-                                "defect_reg_in_hole", "defect_bad_default", "wellformed_accepted", "restart_over_surviving_callback_storage", "ops_report_uninitialised", "empty_area_between_populated", "reinit_of_initialised_table_rejected", "reinit_after_registers_removed", "value_objects_with_stale_octets"};
+                                "defect_reg_in_hole", "defect_bad_default", "wellformed_accepted", "restart_over_surviving_callback_storage", "ops_report_uninitialised", "empty_area_between_populated", "reinit_of_initialised_table_rejected", "reinit_after_registers_removed", "value_objects_with_stale_octets", "table_ends_at_top_of_address_space", "area_wider_than_64k_words"};
         return {"invariant_checked_ops", "refused_op_left_storage_unchanged", "bit_set_exact", "bit_clear_exact", "bit_op_refused_signed_or_float", "sanitise_reset_some_kept_some",
-                "corrupt_then_sanitise", "block_write_refused_by_constraint", "sanitise_left_through_error_path", "value_objects_with_stale_octets"};
+                "corrupt_then_sanitise", "block_write_refused_by_constraint", "sanitise_left_through_error_path", "sanitise_with_io_error_kept_valid_registers", "reinit_after_registers_removed", "value_objects_with_stale_octets", "table_ends_at_top_of_address_space", "area_wider_than_64k_words", "request_ends_at_last_address"};
     }
     Json describe(const std::string &p) const override {
         Json d = Json::obj();
@@ -299,14 +319,14 @@ struct RegHarness : Harness {
         for (size_t i = 0; i < as.size() && i < 6; ++i) {
             const Json &e = as.at(i); AreaSpec a;
             int64_t b = e.ati(0, 0), s = e.ati(1, 1);
-            if (b < 0) b = 0; if (b > 4096) b = 4096; if (s < 1) s = 1; if (s > 256) s = 256;
+            if (b < 0) b = 0; if (b > 0x60000) b = 0x60000; if (s < 1) s = 1; if (s > 0x10040) s = 0x10040;
             a.base = (uint32_t)b; a.size = (uint32_t)s; a.mem = e.ati(2, 1) != 0; a.flags = (unsigned)e.ati(3, 3) & 7; a.has_write = e.ati(4, 1) != 0;
             t.areas.push_back(a);
         }
         const Json &rs = j.get("regs");
         for (size_t i = 0; i < rs.size() && i < 12; ++i) {
             const Json &e = rs.at(i); RegSpec g;
-            g.type = (int)(e.ati(0, 0) & 7); int64_t ad = e.ati(1, 0); if (ad < 0) ad = 0; if (ad > 8192) ad = 8192; g.addr = (uint32_t)ad;
+            g.type = (int)(e.ati(0, 0) & 7); int64_t ad = e.ati(1, 0); if (ad < 0) ad = 0; if (ad > 0x7ffff) ad = 0x7ffff; g.addr = (uint32_t)ad;
             g.ck = (int)(e.ati(2, 0) % 6); if (g.ck < 0) g.ck = 0;
             g.a = e.at(3).is_str() ? hexu64(e.at(3).s) : (uint64_t)e.ati(3, 0);
             g.b = e.at(4).is_str() ? hexu64(e.at(4).s) : (uint64_t)e.ati(4, 0);
@@ -322,9 +342,13 @@ struct RegHarness : Harness {
         int na = (int)r.range(1, 3);
         uint32_t cur = (uint32_t)r.range(0, 6);
         int budget_regs = (int)r.range(0, 6);
+        // rarely one area is wider than 2^16 words, with registers on both sides of in-area offset 0x10000 and at its end
+        const int wide = r.chance(1, 40) ? (int)r.below((uint64_t)na) : -1;
+        if (wide >= 0 && budget_regs < 3) budget_regs = 3 + (int)r.below(3);
         for (int i = 0; i < na; ++i) {
             AreaSpec a;
             a.base = cur; a.size = (uint32_t)r.range(1, 12);
+            if (i == wide) a.size = 0x10000u + (uint32_t)r.range(0, 0x20);
             a.mem = r.chance(1, 2);
             switch (r.below(8)) {
             case 0: a.flags = AF_R; break;                                   // read-only by flag
@@ -346,6 +370,7 @@ struct RegHarness : Harness {
                 if (prop == "C05" && g.ck == CK_FAIL && r.chance(3, 4)) g.ck = CK_RANGE, g.a = g.def, g.b = g.def;
                 t.regs.push_back(g); --budget_regs;
                 off += wsize(g.type) + (uint32_t)(r.chance(1, 2) ? 0 : r.range(0, 2));
+                if (i == wide && off < 0xfff0u) { off = r.chance(1, 4) ? a.size - (uint32_t)r.range(1, 6) : 0xfff8u + (uint32_t)r.range(0, 10); continue; }
                 if (r.chance(1, 5)) break;
             }
             cur = a.base + a.size + (uint32_t)(r.chance(1, 2) ? 0 : r.range(1, 4));
@@ -386,7 +411,7 @@ struct RegHarness : Harness {
             o["h"] = (long long)pick_handle();
         } else if (k == "bw" || k == "br" || k == "corrupt") {
             uint32_t addr = (uint32_t)r.range(0, hi);
-            int64_t n = r.chance(1, 12) ? 0 : r.range(1, r.chance(1, 3) ? hi : 6);
+            int64_t n = r.chance(1, 12) ? 0 : r.range(1, r.chance(1, 3) ? (hi > 1024 ? 64 : hi) : 6);
             // bias: start inside / at the edges of a register
             if (nr && r.chance(2, 3)) { const RegSpec &g = t.regs[r.below(nr)]; int64_t a = (int64_t)g.addr + r.range(-1, (int64_t)wsize(g.type)); if (a < 0) a = 0; addr = (uint32_t)a; if (r.chance(1, 2)) n = r.range(1, wsize(g.type) + 1); }
             if (k == "corrupt") { // stay inside one area so that the overwrite is well-defined
@@ -443,10 +468,10 @@ struct RegHarness : Harness {
         TableSpec ts = gen_table(r, prop);
         std::vector<std::string> kinds;
         if (prop == "C01") kinds = {"set", "set", "set", "set", "set_unsafe", "get", "get", "default", "corrupt", "sanitise_any"};
-        else if (prop == "C02") kinds = {"bw", "bw", "bw", "bw", "corrupt", "touchcheck"};
+        else if (prop == "C02") kinds = {"bw", "bw", "bw", "bw", "bw", "bw", "corrupt", "touchcheck", "reedit"};
         else if (prop == "C03") kinds = {"br", "br", "br", "foreach", "foreach", "foreach", "corrupt", "corrupt", "reedit"};
         else if (prop == "C04") kinds = {"corrupt", "restart", "probe_ops", "poststate", "redefect", "reedit"};
-        else kinds = {"set", "set", "set", "bit_set", "bit_clear", "bw", "bw", "sanitise", "sanitise_any", "corrupt"};
+        else kinds = {"set", "set", "set", "bit_set", "bit_clear", "bw", "bw", "bw", "sanitise", "sanitise_any", "corrupt", "reedit"};
         if (prop == "C04") {
             // perturb the description by at most one defect
             int defect = r.chance(1, 3) ? -1 : (int)r.below(9);
@@ -454,6 +479,7 @@ struct RegHarness : Harness {
             apply_defect(ts, defect, r);
         }
         if (prop != "C04" && r.chance(1, 5)) p["init_fault"] = (long long)r.below(8);
+        if (r.chance(1, 12)) p["lift"] = 1;
         { static const int DIRT[] = {0, 0, 0, 0xff, 0xa5, 0x80, 0x01, 0x7f}; p["dirt"] = DIRT[r.below(8)]; p["dirt_tbl"] = r.chance(1, 2) ? 0 : DIRT[r.below(8)]; }
         p["table"] = spec_json(ts);
         Json ops = Json::arr();
@@ -470,6 +496,9 @@ struct RegHarness : Harness {
         Sim S(c);
         S.spec = spec_from(plan.get("table"));
         const std::string &P = c.prop;
+        for (auto &a : S.spec.areas) if (a.size > 0x10000u) { COUNT("probe.area_wider_than_64k_words"); break; }
+        S.lift = plan.geti("lift") != 0;
+        if (S.lift) COUNT("probe.table_ends_at_top_of_address_space");
         g_dirt = (uint8_t)(plan.geti("dirt") & 0xff); g_dirt_tbl = (uint8_t)(plan.geti("dirt_tbl") & 0xff);
         if (g_dirt != g_dirt_tbl) COUNT("probe.value_objects_with_stale_octets");
         S.build(true);
@@ -715,15 +744,35 @@ struct RegHarness : Harness {
         if (op == "sanitise_any") {
             // not judged (the property only speaks about sanitise on tables it can repair): run it, possibly with an I/O error
             // injected behind the area seam, and carry on from whatever state it leaves - later operations are judged as usual
+            // One thing is judged even then (C05, tables the property speaks about): whatever an I/O error does to the call, sanitise only
+            // ever resets registers whose content does not decode or violates their constraint - "all others keep their value".
+            const TableSpec &t = S.spec; const size_t nr = t.regs.size();
+            bool repairable = P == "C05";
+            for (auto &g : t.regs) if (g.ck == CK_FAIL || !default_ok(g)) repairable = false;
+            for (auto &ar : t.areas) if (!ar.has_write) repairable = false;
+            std::vector<char> valid(nr, 0);
+            if (repairable) for (size_t r = 0; r < nr; ++r) valid[r] = S.reg_ok(r);
             S.cb_fail_in = o.geti("cbfail", -1);
             RegisterAccess a = register_sanitise(&S.tbl);
+            const bool fired = o.geti("cbfail", -1) >= 0 && S.cb_fail_in < 0;
             S.cb_fail_in = -1;
             c.ev(EV_API, 9, (uint64_t)a.code, a.address); c.execs++;
             if (a.code != REG_ACCESS_SUCCESS) COUNT("probe.sanitise_left_through_error_path");
+            if (repairable) {
+                for (size_t r = 0; r < nr; ++r) {
+                    if (!valid[r]) continue;
+                    const RegSpec &g = t.regs[r]; int ai = t.area_of_reg(g); if (ai < 0) continue;
+                    for (unsigned k = 0; k < wsize(g.type); ++k) {
+                        size_t wi = g.addr + k - t.areas[(size_t)ai].base;
+                        if (S.actual((size_t)ai)[wi] != S.M[(size_t)ai][wi]) { F("keepsvalid", "register %zu held a valid value, sanitise (%s, %s) changed its word %u from 0x%04x to 0x%04x", r, fired ? "with an injected callback I/O error" : "no fault", code_name(a.code), k, S.M[(size_t)ai][wi], S.actual((size_t)ai)[wi]); return; }
+                    }
+                }
+                if (fired) COUNT("probe.sanitise_with_io_error_kept_valid_registers");
+            }
             S.sync_model_from_actual();
             return;
         }
-        if (op == "reedit" && (P == "C04" || P == "C03")) {
+        if (op == "reedit" && P != "C01") {
             // a well-formed edit of an initialised table (registers removed, e.g. an area loses all of them), then register_init again
             Rng r2((uint64_t)o.geti("salt") * 0x9e3779b97f4a7c15ULL + 5);
             TableSpec edited = S.spec;
@@ -798,10 +847,11 @@ struct RegHarness : Harness {
 
     template <class FF> void op_block_write(Sim &S, const Json &o, FF &F) {
         Ctx &c = S.c; const TableSpec &t = S.spec; const size_t nr = t.regs.size();
-        int64_t addr64 = o.geti("addr"); if (addr64 < 0) addr64 = 0; if (addr64 > 16384) addr64 = 16384;
+        int64_t addr64 = o.geti("addr"); if (addr64 < 0) addr64 = 0; if (addr64 > 0x80000) addr64 = 0x80000;
         uint32_t addr = (uint32_t)addr64;
         const Json &wj = o.get("w");
         size_t n = wj.size(); if (n > 512) n = 512;
+        if (!S.clamp_n(addr, n)) return;
         GuardedBlock buf(n * 2 ? n * 2 : 2);
         uint16_t *w = (uint16_t *)buf.p;
         for (size_t k = 0; k < n; ++k) { int64_t x = wj.ati(k, -1); w[k] = x < 0 ? (S.mapped(addr + (uint32_t)k) ? S.mword(addr + (uint32_t)k) : 0) : (uint16_t)x; }
@@ -837,7 +887,8 @@ struct RegHarness : Harness {
         if (first_area >= 0 && last_area != first_area) COUNT("probe.block_spans_two_areas");
         std::vector<char> touched_before(nr);
         for (size_t r = 0; r < nr; ++r) touched_before[r] = register_was_touched(&S.tbl, (RegisterHandle)r);
-        RegisterAccess a = register_block_write(&S.tbl, addr, (RegisterOffset)n, w);
+        if (!S.fits_address_space(addr, n)) return;
+        RegisterAccess a = S.down(register_block_write(&S.tbl, S.up(addr), (RegisterOffset)n, w));
         c.ev(EV_API, 5, (uint64_t)a.code, a.address); c.ops_done++; c.execs++;
         if (S.cb_oob) F("areabounds", "callback area accessed outside its storage");
         if (!buf.unchanged_outside(0, 0)) F("constbuf", "the caller's word buffer was modified");
@@ -873,12 +924,13 @@ struct RegHarness : Harness {
 
     template <class FF> void op_block_read(Sim &S, const Json &o, FF &F) {
         Ctx &c = S.c; const TableSpec &t = S.spec;
-        int64_t addr64 = o.geti("addr"); if (addr64 < 0) addr64 = 0; if (addr64 > 16384) addr64 = 16384;
+        int64_t addr64 = o.geti("addr"); if (addr64 < 0) addr64 = 0; if (addr64 > 0x80000) addr64 = 0x80000;
         uint32_t addr = (uint32_t)addr64;
         int64_t n64 = o.geti("n"); if (n64 < 0) n64 = 0; if (n64 > 512) n64 = 512;
         size_t n = (size_t)n64;
+        if (!S.clamp_n(addr, n)) return;
         GuardedBlock buf(n * 2 ? n * 2 : 2);
-        RegisterAccess a = register_block_read(&S.tbl, addr, (RegisterOffset)n, (RegisterAtom *)buf.p);
+        RegisterAccess a = S.down(register_block_read(&S.tbl, S.up(addr), (RegisterOffset)n, (RegisterAtom *)buf.p));
         c.ev(EV_API, 6, (uint64_t)a.code, a.address); c.ops_done++; c.execs++;
         if (S.cb_oob) F("areabounds", "callback area accessed outside its storage");
         int64_t first_unmapped = -1; int fa = -1, la = -1; bool wo_mid = false;
@@ -903,13 +955,15 @@ struct RegHarness : Harness {
 
     template <class FF> void op_foreach(Sim &S, const Json &o, FF &F) {
         Ctx &c = S.c; const TableSpec &t = S.spec; const size_t nr = t.regs.size();
-        int64_t addr64 = o.geti("addr"); if (addr64 < 0) addr64 = 0; if (addr64 > 16384) addr64 = 16384;
+        int64_t addr64 = o.geti("addr"); if (addr64 < 0) addr64 = 0; if (addr64 > 0x80000) addr64 = 0x80000;
         uint32_t addr = (uint32_t)addr64;
         int64_t n64 = o.geti("n"); if (n64 < 0) n64 = 0; if (n64 > 100000) n64 = 100000;
         uint32_t len = (uint32_t)n64;
+        if (!S.clamp_n(addr, len)) return;
         IterCtl ic; ic.c = &c;
         const Json &rj = o.get("ret"); for (size_t k = 0; k < rj.size(); ++k) { int64_t v = rj.ati(k); if (v > 1000) v = 1000; if (v < -1000) v = -1000; ic.ret.push_back(v); }
-        RegisterAccess a = register_foreach_in(&S.tbl, addr, len, iter_cb, &ic);
+        if (!S.fits_address_space(addr, len)) return;
+        RegisterAccess a = S.down(register_foreach_in(&S.tbl, S.up(addr), len, iter_cb, &ic));
         c.ev(EV_API, 7, (uint64_t)a.code, a.address); c.ops_done++; c.execs++;
         // expected visits
         std::vector<uint32_t> want; int want_code = REG_ACCESS_SUCCESS; uint32_t want_addr = 0;
